@@ -8,6 +8,7 @@
                      the only thing the model says about them is that they do not change the supply and do
                      not touch the minter / distributor accounts (their own semantics is Vesting.tla / Signature.tla)
      UpdateMinter / UpdateDistributor = governance parameter updates between blocks
+     FailedTx      = a valid parameter update followed, in the same transaction / proposal, by a message that fails
      ExportImport  = the node is stopped, its state exported, a fresh node initialised from it
 
    The minter and the distributor are the modules Minter.tla and Distributor.tla, instantiated on this
@@ -101,6 +102,18 @@ UpdateDistributor(u) ==
   /\ nupd' = nupd + 1
   /\ UNCHANGED <<mcfg, ms, hist, now, total, sup, mexact, bal, rem, entitled, paid, requeued, dexact, supply, minted, burned, blocks, pcScript, halted>>
 
+(* A transaction (or the message list of a passed governance proposal) whose first message is a parameter update that
+   is valid on its own and whose second message fails: baseapp / x/gov run all messages on one branch of the state and
+   drop it - nothing may remain of the update, neither in the store nor in the node's memory. *)
+FailedTx(k, u) ==
+  /\ Configured /\ ~halted /\ nupd < MaxUpdates /\ stage < 3 /\ stage' = 3
+  /\ k \in {"minter", "dist"}
+  /\ (k = "minter") => (M!ValidCfg(u) /\ M!HasMinter(u, ms.seq) /\ u.denom \in Denoms)
+  /\ (k = "dist") => (D!ValidConfig(u) /\ u # <<>>)
+  /\ act' = [name |-> "failedtx", kind |-> k, payload |-> u]
+  /\ nupd' = nupd + 1
+  /\ UNCHANGED <<mcfg, ms, hist, now, total, sup, mexact, dcfg, bal, rem, entitled, paid, requeued, dexact, supply, minted, burned, blocks, pcScript, halted>>
+
 ExportImport ==
   /\ Configured /\ ~halted /\ stage < 4 /\ stage' = 4 /\ blocks > 0
   /\ act' = [name |-> "export"]
@@ -113,6 +126,8 @@ Next ==
   \/ Opaque
   \/ \E u \in MinterUpdates : UpdateMinter(u)
   \/ \E u \in DistUpdates : UpdateDistributor(u)
+  \/ \E u \in MinterUpdates : FailedTx("minter", u)
+  \/ \E u \in DistUpdates : FailedTx("dist", u)
   \/ ExportImport
 
 Spec == Init /\ [][Next]_vars
@@ -126,7 +141,7 @@ SupplyOnlyInBlocks == [][act'.name \notin {"block", "init"} => supply' = supply]
 SupplyDeltaIsMintMinusBurn == [][act'.name = "block" =>
       \A d \in Denoms : supply'[d] - supply[d] = (IF d = mcfg.denom THEN act'.minted ELSE 0) - act'.burned[d]]_vars
 \* C03 at chain level: books match after every block
-BooksMatch == (Configured /\ act.name \in {"block", "export", "opaque", "updateminter", "updatedist"}) =>
+BooksMatch == (Configured /\ act.name \in {"block", "export", "opaque", "updateminter", "updatedist", "failedtx"}) =>
                  \A d \in Denoms : D!SumRem(rem)[d] <= D!DecC(bal[D!MAINK])[d]
 \* C10: neither module halts the chain; the minter's current period always exists
 NeverHalts == ~halted
